@@ -251,5 +251,445 @@ pub fn run(ctx: &mut Ctx) {
         let mut r = rng.fork(idx as u64);
         if ctx.out.wants(idx) { codec_case(ctx, idx, sub, &mut r); }
     }
+    // Part B: whole images
+    witness_cases(ctx, 90000);
+    let nimg = ctx.n(420, 6000);
+    for k in 0..nimg {
+        let idx = 100000 + k;
+        let mut r = rng.fork(idx as u64);
+        if !ctx.out.wants(idx) { continue; }
+        // every format in turn; the slow bit-level formats less often in the quick tier
+        let which = if ctx.tier_thorough { k % 14 } else { [0, 1, 2, 4, 5, 6, 7, 12, 13, 0, 1, 5, 3, 8, 9, 10, 11, 2, 4, 5, 12, 13][k % 22] };
+        image_case(ctx, idx, which, &mut r);
+    }
     let _ = SKEW13;
+}
+
+// ------------------------------------------------------------------------------------------------
+// Part B: whole images
+// ------------------------------------------------------------------------------------------------
+use a2kit::bios::dpb::DiskParameterBlock;
+use a2kit::fs::Block;
+use a2kit::img::{names, DiskImage, DiskKind};
+use std::collections::BTreeMap;
+
+#[derive(Clone, Debug, PartialEq, Eq, PartialOrd, Ord)]
+enum Addr {
+    Dos(usize, usize),
+    D13(usize, usize),
+    Po(usize),
+    Cpm(usize, u8, u16),
+    Fat(u64, u8),
+    Chs(usize, usize, usize),
+}
+
+impl Addr {
+    fn block(&self) -> Option<Block> {
+        match *self {
+            Addr::Dos(t, s) => Some(Block::DO([t, s])),
+            Addr::D13(t, s) => Some(Block::D13([t, s])),
+            Addr::Po(b) => Some(Block::PO(b)),
+            Addr::Cpm(b, h, o) => Some(Block::CPM((b, h, o))),
+            Addr::Fat(a, n) => Some(Block::FAT((a, n))),
+            Addr::Chs(..) => None,
+        }
+    }
+    /// token for the model protocol, `None` if the model has no such op
+    fn tok(&self) -> Option<String> {
+        match *self {
+            Addr::Dos(t, s) => Some(format!("b:dos:{}:{}", t, s)),
+            Addr::D13(t, s) => Some(format!("b:d13:{}:{}", t, s)),
+            Addr::Po(b) => Some(format!("b:po:{}:0", b)),
+            Addr::Fat(a, n) => Some(format!("b:fat:{}:{}", a, n)),
+            Addr::Cpm(..) => None,
+            Addr::Chs(c, h, s) => Some(format!("s:{}:{}:{}", c, h, s)),
+        }
+    }
+}
+
+#[derive(Clone)]
+enum Mode {
+    Dos { tracks: usize, sectors: usize },
+    D13 { tracks: usize },
+    Po { blocks: usize },
+    Cpm { bsh: u8, off: u16, blocks: usize },
+    Fat { secs: u8, total: u64, sec_size: usize },
+    /// list of (cyl, head, sector id, size); `heads`/`cyls` for making invalid addresses
+    Chs { list: Vec<(usize, usize, usize, usize)>, cyls: usize, heads: usize },
+}
+
+impl Mode {
+    fn name(&self) -> &'static str {
+        match self { Mode::Dos { .. } => "dos-block", Mode::D13 { .. } => "d13-block", Mode::Po { .. } => "po-block",
+            Mode::Cpm { .. } => "cpm-block", Mode::Fat { .. } => "fat-block", Mode::Chs { .. } => "sector" }
+    }
+    fn count(&self) -> usize {
+        match self { Mode::Dos { tracks, sectors } => tracks * sectors, Mode::D13 { tracks } => tracks * 13, Mode::Po { blocks } => *blocks,
+            Mode::Cpm { blocks, .. } => *blocks, Mode::Fat { secs, total, .. } => (*total / *secs as u64) as usize, Mode::Chs { list, .. } => list.len() }
+    }
+    /// the k-th valid address and its unit size
+    fn valid(&self, k: usize) -> (Addr, usize) {
+        match self {
+            Mode::Dos { sectors, .. } => (Addr::Dos(k / sectors, k % sectors), 256),
+            Mode::D13 { .. } => (Addr::D13(k / 13, k % 13), 256),
+            Mode::Po { .. } => (Addr::Po(k), 512),
+            Mode::Cpm { bsh, off, .. } => (Addr::Cpm(k, *bsh, *off), 128usize << *bsh),
+            Mode::Fat { secs, sec_size, .. } => (Addr::Fat(k as u64 * *secs as u64, *secs), *secs as usize * sec_size),
+            Mode::Chs { list, .. } => { let (c, h, s, z) = list[k]; (Addr::Chs(c, h, s), z) }
+        }
+    }
+    fn invalid(&self, rng: &mut Rng) -> Addr {
+        let big = |rng: &mut Rng, lim: usize| -> usize { match rng.below(6) { 0 => lim, 1 => lim + 1 + rng.below(3), 2 => 255, 3 => 256 + rng.below(lim.max(1)), 4 => 65536 + rng.below(lim.max(1)), _ => 1usize << (20 + rng.below(12)) } };
+        match self {
+            Mode::Dos { tracks, sectors } => if rng.chance(50) { Addr::Dos(big(rng, *tracks).max(*tracks), rng.below(*sectors)) } else { Addr::Dos(rng.below(*tracks), big(rng, *sectors).max(*sectors)) },
+            Mode::D13 { tracks } => if rng.chance(50) { Addr::D13(big(rng, *tracks).max(*tracks), rng.below(13)) } else { Addr::D13(rng.below(*tracks), big(rng, 13).max(13)) },
+            Mode::Po { blocks } => Addr::Po(big(rng, *blocks).max(*blocks)),
+            Mode::Cpm { bsh, off, blocks } => Addr::Cpm(big(rng, *blocks).max(*blocks), *bsh, *off),
+            Mode::Fat { secs, total, .. } => {
+                let first = match rng.below(3) { 0 => *total - (*secs as u64 - 1).min(*total), 1 => *total, _ => *total + big(rng, 100) as u64 };
+                Addr::Fat(first.max(*total + 1 - *secs as u64), *secs)
+            }
+            Mode::Chs { list, cyls, heads } => {
+                let (c, h, s, _) = list[rng.below(list.len())];
+                let maxs = list.iter().filter(|x| x.0 == c && x.1 == h).map(|x| x.2).max().unwrap_or(0);
+                let mins = list.iter().filter(|x| x.0 == c && x.1 == h).map(|x| x.2).min().unwrap_or(0);
+                match rng.below(4) {
+                    0 => Addr::Chs(big(rng, *cyls).max(*cyls), h, s),
+                    1 => Addr::Chs(c, big(rng, *heads).max(*heads), s),
+                    2 => Addr::Chs(c, h, maxs + 1 + match rng.below(4) { 0 => 0, 1 => rng.below(4), 2 => 255 - maxs.min(255), _ => 65535 }),
+                    _ => if mins > 0 { Addr::Chs(c, h, mins - 1) } else { Addr::Chs(c, h, 256 + s) },
+                }
+            }
+        }
+    }
+}
+
+struct Spec {
+    fmt: &'static str,
+    label: String,
+    /// model request prefix (`c08 seq …`) for the flat formats
+    model: Option<String>,
+    modes: Vec<Mode>,
+    slow: bool,
+    /// offset and length of the raw image data inside `to_bytes()` (flat formats)
+    raw: Option<(usize, usize)>,
+}
+
+fn chs_grid(cyls: usize, heads: usize, first: usize, secs: usize, size: usize) -> Mode {
+    let mut list = Vec::new();
+    for c in 0..cyls { for h in 0..heads { for s in first..first + secs { list.push((c, h, s, size)); } } }
+    Mode::Chs { list, cyls, heads }
+}
+
+fn geometry_mode(img: &mut Box<dyn DiskImage>) -> Option<Mode> {
+    let js = img.export_geometry(None).ok()?;
+    let v = json::parse(&js).ok()?;
+    let mut list = Vec::new();
+    let (mut cyls, mut heads) = (0, 0);
+    for t in v["tracks"].members() {
+        for m in t["chs_map"].members() {
+            let c = m[0].as_usize()?; let h = m[1].as_usize()?; let s = m[2].as_usize()?; let z = m[3].as_usize()?;
+            list.push((c, h, s, z));
+            cyls = cyls.max(c + 1); heads = heads.max(h + 1);
+        }
+    }
+    if list.is_empty() { None } else { Some(Mode::Chs { list, cyls, heads }) }
+}
+
+/// (cyls, heads, sectors, sector size) from the Display form of a disk kind, e.g. `5.25 inch 40/1/8/512`
+fn layout_of(kind: &DiskKind) -> Option<(usize, usize, usize, usize)> {
+    let s = kind.to_string();
+    let last = s.split(' ').last()?;
+    let p: Vec<usize> = last.split('/').filter_map(|x| x.parse().ok()).collect();
+    if p.len() == 4 { Some((p[0], p[1], p[2], p[3])) } else { None }
+}
+
+const IBM_KINDS: [(&str, DiskKind); 10] = [
+    ("ssdd8", DiskKind::D525(names::IBM_SSDD_8)), ("ssdd9", DiskKind::D525(names::IBM_SSDD_9)),
+    ("dsdd8", DiskKind::D525(names::IBM_DSDD_8)), ("dsdd9", DiskKind::D525(names::IBM_DSDD_9)),
+    ("ssqd", DiskKind::D525(names::IBM_SSQD)), ("dsqd", DiskKind::D525(names::IBM_DSQD)), ("dshd", DiskKind::D525(names::IBM_DSHD)),
+    ("720", DiskKind::D35(names::IBM_720)), ("1440", DiskKind::D35(names::IBM_1440)), ("2880", DiskKind::D35(names::IBM_2880))];
+const CPM_KINDS: [(&str, DiskKind); 8] = [
+    ("cpm1", names::IBM_CPM1_KIND), ("osb-sd", names::OSBORNE1_SD_KIND), ("osb-dd", names::OSBORNE1_DD_KIND), ("kayii", names::KAYPROII_KIND),
+    ("kay4", names::KAYPRO4_KIND), ("trs80", names::TRS80_M2_CPM_KIND), ("nabu", names::NABU_CPM_KIND), ("amstrad", names::AMSTRAD_SS_KIND)];
+
+fn a2_525_modes(dos33: bool) -> Vec<Mode> {
+    if dos33 {
+        vec![Mode::Dos { tracks: 35, sectors: 16 }, Mode::Po { blocks: 280 }, Mode::Cpm { bsh: 3, off: 3, blocks: 128 }, chs_grid(35, 1, 0, 16, 256)]
+    } else {
+        vec![Mode::D13 { tracks: 35 }, chs_grid(35, 1, 0, 13, 256)]
+    }
+}
+
+fn d35_sector_mode(sides: usize) -> Mode {
+    let mut list = Vec::new();
+    for c in 0..80 { for h in 0..sides { for s in 0..[12usize, 11, 10, 9, 8][c / 16] { list.push((c, h, s, 512)); } } }
+    Mode::Chs { list, cyls: 80, heads: sides }
+}
+
+/// Build the image and its description.  `which` enumerates every (format, kind) pair `mkimage` allows,
+/// plus small DO/PO/D13 images (public constructors) that keep the model runs cheap.
+fn make_image(which: usize, rng: &mut Rng) -> (Box<dyn DiskImage>, Spec) {
+    let vol = 1 + rng.below(254) as u8;
+    match which {
+        0 => { let t = 2 + rng.below(4); (Box::new(a2kit::img::dsk_do::DO::create(t as u16, 16)),
+            Spec { fmt: "do", label: format!("do/{}x16", t), model: Some(format!("c08 seq do {} 0", t)), modes: vec![Mode::Dos { tracks: t, sectors: 16 }, chs_grid(t, 1, 0, 16, 256)], slow: false, raw: Some((0, t * 4096)) }) }
+        1 => (Box::new(a2kit::img::dsk_do::DO::create(35, 16)),
+            Spec { fmt: "do", label: "do/35x16".into(), model: Some("c08 seq do 35 1".into()), modes: a2_525_modes(true), slow: false, raw: Some((0, 143360)) }),
+        2 => { let b = *rng.pick(&[8usize, 16, 280]); (Box::new(a2kit::img::dsk_po::PO::create(b as u16)),
+            Spec { fmt: "po", label: format!("po/{}", b), model: Some(format!("c08 seq po {}", b)), modes: vec![Mode::Po { blocks: b }], slow: false, raw: Some((0, b * 512)) }) }
+        3 => { let b = *rng.pick(&[800usize, 1600, 65535]); (Box::new(a2kit::img::dsk_po::PO::create(b as u16)),
+            Spec { fmt: "po", label: format!("po/{}", b), model: if b < 2000 { Some(format!("c08 seq po {}", b)) } else { None }, modes: vec![Mode::Po { blocks: b }], slow: false, raw: Some((0, b * 512)) }) }
+        4 => { let t = *rng.pick(&[2usize, 3, 35]); (Box::new(a2kit::img::dsk_d13::D13::create(t as u16)),
+            Spec { fmt: "d13", label: format!("d13/{}", t), model: Some(format!("c08 seq d13 {}", t)), modes: vec![Mode::D13 { tracks: t }, chs_grid(t, 1, 0, 13, 256)], slow: false, raw: Some((0, t * 13 * 256)) }) }
+        5 => {
+            let lim = if rng.chance(70) { 4 } else { 10 };
+            let (nm, kind) = IBM_KINDS[rng.below(lim)];
+            let (c, h, s, z) = layout_of(&kind).expect("layout");
+            (Box::new(a2kit::img::dsk_img::Img::create(kind)),
+             Spec { fmt: "img", label: format!("img/{}", nm), model: if c * h * s * z <= 400000 { Some(format!("c08 seq img {} {} {} {}", z, c, h, s)) } else { None },
+                    modes: vec![chs_grid(c, h, 1, s, z), Mode::Fat { secs: 1, total: (c * h * s) as u64, sec_size: z }, Mode::Fat { secs: 2, total: (c * h * s) as u64, sec_size: z }], slow: false, raw: Some((0, c * h * s * z)) })
+        }
+        6 => {
+            let wrap = if rng.chance(50) { "do" } else { "nib" }.to_string();
+            let img = a2kit::img::dot2mg::Dot2mg::create(vol, names::A2_DOS33_KIND, if wrap == "do" && rng.chance(50) { None } else { Some(&wrap) }).expect("2mg");
+            let flat = wrap == "do";
+            (img, Spec { fmt: "2mg", label: format!("2mg/{}", wrap), model: if flat { Some("c08 seq mgdo 35 1 0".into()) } else { None }, modes: a2_525_modes(true), slow: !flat, raw: if flat { Some((64, 143360)) } else { None } })
+        }
+        7 => {
+            let (kind, b) = *rng.pick(&[(names::A2_400_KIND, 800usize), (names::A2_800_KIND, 1600), (names::A2_HD_MAX, 65535)]);
+            let wrap = "po".to_string();
+            let img = a2kit::img::dot2mg::Dot2mg::create(vol, kind, if rng.chance(50) { None } else { Some(&wrap) }).expect("2mg");
+            (img, Spec { fmt: "2mg", label: format!("2mg/po{}", b), model: if b < 2000 { Some(format!("c08 seq mgpo {} 0", b)) } else { None }, modes: vec![Mode::Po { blocks: b }], slow: false, raw: Some((64, b * 512)) })
+        }
+        8 => { let d33 = rng.chance(60); (Box::new(a2kit::img::nib::Nib::create(vol, if d33 { names::A2_DOS33_KIND } else { names::A2_DOS32_KIND })),
+            Spec { fmt: "nib", label: format!("nib/{}", if d33 { "dos33" } else { "dos32" }), model: None, modes: a2_525_modes(d33), slow: true, raw: None }) }
+        9 => { let d33 = rng.chance(60); (Box::new(a2kit::img::woz1::Woz1::create(vol, if d33 { names::A2_DOS33_KIND } else { names::A2_DOS32_KIND })),
+            Spec { fmt: "woz1", label: format!("woz1/{}", if d33 { "dos33" } else { "dos32" }), model: None, modes: a2_525_modes(d33), slow: true, raw: None }) }
+        10 => { let d33 = rng.chance(60); (Box::new(a2kit::img::woz2::Woz2::create(vol, if d33 { names::A2_DOS33_KIND } else { names::A2_DOS32_KIND })),
+            Spec { fmt: "woz2", label: format!("woz2/{}", if d33 { "dos33" } else { "dos32" }), model: None, modes: a2_525_modes(d33), slow: true, raw: None }) }
+        11 => { let two = rng.chance(50); (Box::new(a2kit::img::woz2::Woz2::create(vol, if two { names::A2_800_KIND } else { names::A2_400_KIND })),
+            Spec { fmt: "woz2", label: format!("woz2/{}", if two { "800k" } else { "400k" }), model: None,
+                   modes: vec![Mode::Po { blocks: if two { 1600 } else { 800 } }, d35_sector_mode(if two { 2 } else { 1 })], slow: true, raw: None }) }
+        12 | 13 => {
+            let ibm = rng.chance(40);
+            // IBM_2880 (1000 kbps) cannot be created as IMD/TD0 (create panics: a mkdsk matter, property C10)
+            let (nm, kind) = if ibm { IBM_KINDS[rng.below(9)] } else { CPM_KINDS[rng.below(8)] };
+            let mut img: Box<dyn DiskImage> = if which == 12 { Box::new(a2kit::img::imd::Imd::create(kind)) } else { Box::new(a2kit::img::td0::Td0::create(kind)) };
+            let mut modes = Vec::new();
+            if kind == names::KAYPRO4_KIND {
+                // the geometry reports the head written in the address fields (0 on both sides);
+                // read_sector takes the physical head: side 0 has ids 0-9, side 1 ids 10-19
+                let mut list = Vec::new();
+                for c in 0..40 { for h in 0..2 { for s in 0..10 { list.push((c, h, 10 * h + s, 512)); } } }
+                modes.push(Mode::Chs { list, cyls: 40, heads: 2 });
+            } else if let Some(m) = geometry_mode(&mut img) { modes.push(m); }
+            if ibm {
+                if let Some((c, h, s, z)) = layout_of(&kind) { modes.push(Mode::Fat { secs: 1 + rng.below(2) as u8, total: (c * h * s) as u64, sec_size: z }); }
+            } else {
+                let dpb = DiskParameterBlock::create(&kind);
+                modes.push(Mode::Cpm { bsh: dpb.bsh, off: dpb.off, blocks: dpb.dsm as usize + 1 });
+            }
+            let fmt = if which == 12 { "imd" } else { "td0" };
+            (img, Spec { fmt, label: format!("{}/{}", fmt, nm), model: None, modes, slow: false, raw: None })
+        }
+        _ => unreachable!(),
+    }
+}
+
+fn src_file(p: &str) -> String {
+    // "…/src/img/dsk_do.rs:67 [msg]" -> "src/img/dsk_do.rs"
+    let s = p.split(" [").next().unwrap_or(p);
+    let s = match s.find("src/") { Some(k) => &s[k..], None => s };
+    s.split(':').next().unwrap_or(s).to_string()
+}
+
+#[derive(PartialEq)]
+enum Out3 { Ok(Vec<u8>), Err, Panic(String) }
+
+fn do_read(img: &mut Box<dyn DiskImage>, a: &Addr) -> Out3 {
+    let r = guarded(|| match a.block() {
+        Some(b) => img.read_block(b).map_err(|_| ()),
+        None => if let Addr::Chs(c, h, s) = *a { img.read_sector(c, h, s).map_err(|_| ()) } else { Err(()) },
+    });
+    match r { Ok(Ok(v)) => Out3::Ok(v), Ok(Err(())) => Out3::Err, Err(p) => Out3::Panic(p) }
+}
+
+fn do_write(img: &mut Box<dyn DiskImage>, a: &Addr, d: &[u8]) -> Out3 {
+    let r = guarded(|| match a.block() {
+        Some(b) => img.write_block(b, d).map_err(|_| ()),
+        None => if let Addr::Chs(c, h, s) = *a { img.write_sector(c, h, s, d).map_err(|_| ()) } else { Err(()) },
+    });
+    match r { Ok(Ok(())) => Out3::Ok(vec![]), Ok(Err(())) => Out3::Err, Err(p) => Out3::Panic(p) }
+}
+
+fn pad(d: &[u8], n: usize) -> Vec<u8> { let mut v = d.to_vec(); v.resize(n, 0); v.truncate(n); v }
+
+fn image_case(ctx: &mut Ctx, idx: usize, which: usize, rng: &mut Rng) {
+    let built = guarded(|| make_image(which, rng));
+    let (mut img, spec) = match built {
+        Ok(x) => x,
+        Err(p) => { ctx.out.oracle(false, "image-create", &format!("create-panic:{}", src_file(&p)), &format!("idx={} which={} {}", idx, which, p)); ctx.out.case(&[which as u8], false); return; }
+    };
+    if spec.modes.is_empty() { ctx.out.oracle(false, "image-geometry", &format!("{}/no-addressing-mode", spec.fmt), &format!("idx={} {}", idx, spec.label)); return; }
+    let mode = spec.modes[rng.below(spec.modes.len())].clone();
+    let nvalid = mode.count();
+    let nops = if spec.slow { 6 + rng.below(8) } else { 12 + rng.below(28) };
+    let mut desc = format!("idx={} img={} mode={} ops=", idx, spec.label, mode.name());
+    let mut canon: Vec<u8> = spec.label.as_bytes().to_vec();
+    canon.extend_from_slice(mode.name().as_bytes());
+    let mut map: BTreeMap<Addr, Vec<u8>> = BTreeMap::new();
+    let mut units: BTreeMap<Addr, usize> = BTreeMap::new();
+    let mut hot: Vec<usize> = Vec::new(); // indices of addresses in play, so that reads hit written and neighbouring units
+    let mut fails: Vec<(String, String)> = Vec::new();
+    let mut mops: Vec<String> = Vec::new();   // model ops
+    let mut mans: Vec<String> = Vec::new();   // implementation answers in the model's format
+    let mut modelled = spec.model.is_some();
+    let mut wrote = false; let mut read_other = false;
+    let sig = |what: &str| format!("{}/{}/{}", spec.fmt, mode.name(), what);
+    let mut stop = false;
+    for opn in 0..nops {
+        if stop { break; }
+        let r = rng.below(100);
+        let pick_valid = |rng: &mut Rng, hot: &mut Vec<usize>| -> usize {
+            let k = if !hot.is_empty() && rng.chance(60) {
+                let h = hot[rng.below(hot.len())];
+                match rng.below(4) { 0 => h, 1 => (h + 1) % nvalid, 2 => (h + nvalid - 1) % nvalid, _ => h }
+            } else if rng.chance(15) { *rng.pick(&[0, nvalid - 1, nvalid / 2]) } else { rng.below(nvalid) };
+            if !hot.contains(&k) { hot.push(k); }
+            k
+        };
+        if r < 45 {
+            // write to a valid address: short, exact or long data
+            let k = pick_valid(rng, &mut hot);
+            let (a, unit) = mode.valid(k);
+            let len = match rng.below(5) { 0 => rng.below(unit), 1 => unit + 1 + rng.below(300), 2 => 0, _ => unit };
+            let dat = if rng.chance(15) { vec![rng.byte(); len] } else { rng.bytes(len) };
+            desc += &format!("W{:?}/{} ", a, len);
+            canon.push(b'W'); canon.extend_from_slice(format!("{:?}", a).as_bytes()); canon.extend_from_slice(&dat);
+            let res = do_write(&mut img, &a, &dat);
+            match a.tok() { Some(t) => mops.push(format!("w{}:{}", t, hx(&dat))), None => modelled = false }
+            match res {
+                Out3::Ok(_) => { map.insert(a.clone(), pad(&dat, unit)); units.insert(a, unit); wrote = true; mans.push("ok".into()); }
+                Out3::Err => { fails.push(("valid-write-accepted".into(), sig("valid-write-refused"))); mans.push("err".into()); }
+                Out3::Panic(p) => { fails.push(("no-panic".into(), format!("{}:panic:{}", sig("valid-write"), src_file(&p)))); mans.push("panic".into()); stop = true; }
+            }
+        } else if r < 80 {
+            let k = pick_valid(rng, &mut hot);
+            let (a, unit) = mode.valid(k);
+            desc += &format!("R{:?} ", a);
+            canon.push(b'R'); canon.extend_from_slice(format!("{:?}", a).as_bytes());
+            let res = do_read(&mut img, &a);
+            match a.tok() { Some(t) => mops.push(format!("r{}", t)), None => modelled = false }
+            match res {
+                Out3::Ok(v) => {
+                    let want = map.get(&a).cloned().unwrap_or(vec![0u8; unit]);
+                    if map.contains_key(&a) == false && wrote { read_other = true; }
+                    if v != want { fails.push(("read-exact".into(), sig(if map.contains_key(&a) { "readback-differs" } else { "unwritten-address-changed" }))); }
+                    mans.push(format!("ok:{}", hx(&v)));
+                }
+                Out3::Err => { fails.push(("valid-read-accepted".into(), sig("valid-read-refused"))); mans.push("err".into()); }
+                Out3::Panic(p) => { fails.push(("no-panic".into(), format!("{}:panic:{}", sig("valid-read"), src_file(&p)))); mans.push("panic".into()); stop = true; }
+            }
+        } else {
+            // invalid address: must be refused, nothing may change
+            let a = mode.invalid(rng);
+            let write = r >= 90;
+            let dl = 1 + rng.below(300);
+            let dat = rng.bytes(dl);
+            desc += &format!("{}!{:?} ", if write { "W" } else { "R" }, a);
+            canon.push(b'!'); canon.extend_from_slice(format!("{:?}", a).as_bytes());
+            let before = if spec.raw.is_some() && write { Some(img.to_bytes()) } else { None };
+            let res = if write { do_write(&mut img, &a, &dat) } else { do_read(&mut img, &a) };
+            match a.tok() { Some(t) => mops.push(if write { format!("w{}:{}", t, hx(&dat)) } else { format!("r{}", t) }), None => modelled = false }
+            match res {
+                Out3::Ok(v) => { fails.push(("invalid-refused".into(), sig("invalid-accepted"))); mans.push(if write { "ok".into() } else { format!("ok:{}", hx(&v)) }); if write { stop = true; } }
+                Out3::Err => {
+                    mans.push("err".into());
+                    if let Some(b) = before { if img.to_bytes() != b { fails.push(("refusal-changes-nothing".into(), sig("refused-write-changed-image"))); stop = true; } }
+                    else if write {
+                        // no flat byte image to compare: the units in play and the last units must read as before
+                        let mut probe: Vec<usize> = hot.clone();
+                        probe.push(nvalid - 1);
+                        if nvalid > 1 { probe.push(nvalid - 2); }
+                        for k in probe {
+                            let (va, unit) = mode.valid(k);
+                            if let Out3::Ok(v) = do_read(&mut img, &va) {
+                                if v != map.get(&va).cloned().unwrap_or(vec![0u8; unit]) {
+                                    fails.push(("refusal-changes-nothing".into(), sig("refused-write-changed-image"))); stop = true; break;
+                                }
+                            }
+                        }
+                    }
+                }
+                Out3::Panic(_p) => { fails.push(("invalid-refused".into(), sig("invalid-panic"))); mans.push("panic".into()); stop = true; }
+            }
+        }
+        let _ = opn;
+    }
+    // final sweep: everything written reads back, plus neighbours and some untouched addresses
+    if !stop {
+        let mut sweep: Vec<usize> = hot.clone();
+        for _ in 0..(if spec.slow { 3 } else { 10 }) { sweep.push(rng.below(nvalid)); }
+        for k in sweep {
+            let (a, unit) = mode.valid(k);
+            match do_read(&mut img, &a) {
+                Out3::Ok(v) => {
+                    let want = map.get(&a).cloned().unwrap_or(vec![0u8; unit]);
+                    if !map.contains_key(&a) && wrote { read_other = true; }
+                    if v != want { fails.push(("final-sweep".into(), sig(if map.contains_key(&a) { "readback-differs" } else { "unwritten-address-changed" }))); }
+                }
+                Out3::Err => fails.push(("final-sweep".into(), sig("valid-read-refused"))),
+                Out3::Panic(p) => { fails.push(("no-panic".into(), format!("{}:panic:{}", sig("valid-read"), src_file(&p)))); break; }
+            }
+        }
+    }
+    // model comparison (flat formats, modelled ops only)
+    if modelled {
+        if let (Some(prefix), Some((off, len))) = (&spec.model, spec.raw) {
+            let req = format!("{} {}", prefix, if mops.is_empty() { "-".to_string() } else { mops.join(";").replace("rb:", "rb:").replace("wb:", "wb:") });
+            let mut ans = mans.join(";");
+            if mans.last().map(|s| s.as_str()) != Some("panic") {
+                let bytes = img.to_bytes();
+                if !ans.is_empty() { ans.push(';'); }
+                ans += &format!("fin:{}", fnv(&bytes[off..off + len]));
+            }
+            ctx.out.q(&req, &ans);
+            ctx.out.count("model-seq");
+        }
+    }
+    let _ = units;
+    if fails.is_empty() { ctx.out.oracle(true, "image-store", "-", &desc); }
+    fails.sort(); fails.dedup();
+    for (o, s) in &fails { ctx.out.oracle(false, o, s, &desc); }
+    ctx.out.sample(&desc);
+    ctx.out.count(&format!("img:{}", spec.fmt));
+    ctx.out.count(&format!("mode:{}", mode.name()));
+    ctx.out.case(&canon, wrote && read_other);
+}
+
+/// Fixed witnesses of DESIGN §9 item 21 (and what the model's `wit*` theorems say), replayed on the
+/// real code; each has its own index so that a replay file names it.
+fn witness_cases(ctx: &mut Ctx, base: usize) {
+    let cases: Vec<(usize, &str, Box<dyn Fn() -> Box<dyn DiskImage>>, Addr, &str)> = vec![
+        (0, "do/35x16", Box::new(|| Box::new(a2kit::img::dsk_do::DO::create(35, 16))), Addr::Dos(35, 0), "do/dos-block"),
+        (1, "do/35x16", Box::new(|| Box::new(a2kit::img::dsk_do::DO::create(35, 16))), Addr::Dos(0, 16), "do/dos-block"),
+        (2, "do/35x16", Box::new(|| Box::new(a2kit::img::dsk_do::DO::create(35, 16))), Addr::Po(280), "do/po-block"),
+        (3, "po/280", Box::new(|| Box::new(a2kit::img::dsk_po::PO::create(280))), Addr::Po(280), "po/po-block"),
+        (4, "d13/35", Box::new(|| Box::new(a2kit::img::dsk_d13::D13::create(35))), Addr::D13(0, 13), "d13/d13-block"),
+        (5, "d13/35", Box::new(|| Box::new(a2kit::img::dsk_d13::D13::create(35))), Addr::D13(35, 0), "d13/d13-block"),
+        (6, "img/dsdd9", Box::new(|| Box::new(a2kit::img::dsk_img::Img::create(DiskKind::D525(names::IBM_DSDD_9)))), Addr::Chs(0, 2, 1), "img/sector"),
+    ];
+    for (k, label, mk, a, sg) in cases {
+        let idx = base + k;
+        if !ctx.out.wants(idx) { continue; }
+        let desc = format!("idx={} witness img={} R!{:?}", idx, label, a);
+        let mut img = mk();
+        match do_read(&mut img, &a) {
+            Out3::Err => ctx.out.oracle(true, "invalid-refused", "-", &desc),
+            Out3::Ok(_) => ctx.out.oracle(false, "invalid-refused", &format!("{}/invalid-accepted", sg), &desc),
+            Out3::Panic(_) => ctx.out.oracle(false, "invalid-refused", &format!("{}/invalid-panic", sg), &desc),
+        }
+        ctx.out.case(desc.as_bytes(), false);
+    }
 }
